@@ -47,6 +47,14 @@ func (k Keeper) ApplyAndReturnValidatorSetUpdates(ctx context.Context) ([]abci.V
 
 		// zero power validator removed from validator set
 		if newPower <= 0 {
+			// a validator that was never bonded is unknown to the consensus engine and
+			// is not in the last validator set, so nothing below would ever remove it
+			if !found {
+				if err := k.RemoveValidator(ctx, valAddr); err != nil {
+					return nil, err
+				}
+			}
+
 			continue
 		}
 
